@@ -75,8 +75,9 @@ def parseBool : String → Option Bool
   | "1" => some true
   | _ => none
 
-def parseMsg : List String → Option Msg
-  | ["sig", ob, sg, t, q] => do some (.signal (← ob.toNat?) (← sg.toNat?) ⟨← t.toNat?, ← q.toNat?⟩)
+/-- `pc` = the publishing context of a signal message (the sender) -/
+def parseMsg (pc : Ctx) : List String → Option Msg
+  | ["sig", ob, sg, t, q] => do some (.signal (← ob.toNat?) (← sg.toNat?) ⟨pc, ← t.toNat?, ← q.toNat?⟩)
   | ["req", id, ob, sg, b] => do some (.subReq (← id.toNat?) (← ob.toNat?) (← sg.toNat?) (← parseBool b))
   | ["rep", id, b] => do some (.subReply (← id.toNat?) (← parseBool b))
   | ["rem", ob, sg] => do some (.removed (← ob.toNat?) (← sg.toNat?))
@@ -174,13 +175,16 @@ def stepLine (s : State) (line : String) : State × String :=
       micro s (.sock c) cls a b
     | none => (s, "bad-op")
   | "cb" :: c :: "send" :: d :: rest =>
-    match c.toNat?, d.toNat?, rest.getLast?.bind parseBool, parseMsg rest.dropLast with
-    | some c, some d, some ok, some m =>
+    match c.toNat?, d.toNat?, rest.getLast?.bind parseBool with
+    | some c, some d, some ok =>
+     match parseMsg c rest.dropLast with
+     | some m =>
       match (s.ctx c).loopQ with
       | hd :: _ =>
         if hd = .smSend (parsePeer d) m then doAct s (.cb c ok) else (s, s!"disabled head={cbStr hd}")
       | [] => (s, "disabled empty-queue")
-    | _, _, _, _ => (s, "bad-op")
+     | none => (s, "bad-op")
+    | _, _, _ => (s, "bad-op")
   | ["cb", c, "disc", d] =>
     match c.toNat?, d.toNat? with
     | some c, some d =>
@@ -191,12 +195,15 @@ def stepLine (s : State) (line : String) : State × String :=
       | [] => (s, "disabled empty-queue")
     | _, _ => (s, "bad-op")
   | "arrive" :: cn :: cli :: rest =>
-    match cn.toNat?, parseBool cli, parseMsg rest with
-    | some cn, some cli, some m =>
-      match ((s.conn cn).half cli).inbox with
-      | hd :: _ => if hd = m then doAct s (.arrive cn cli) else (s, s!"disabled head={msgStr hd}")
-      | [] => (s, "disabled empty-inbox")
-    | _, _, _ => (s, "bad-op")
+    match cn.toNat?, parseBool cli with
+    | some cn, some cli =>
+      match parseMsg ((s.conn cn).half (!cli)).owner rest with
+      | some m =>
+        match ((s.conn cn).half cli).inbox with
+        | hd :: _ => if hd = m then doAct s (.arrive cn cli) else (s, s!"disabled head={msgStr hd}")
+        | [] => (s, "disabled empty-inbox")
+      | none => (s, "bad-op")
+    | _, _ => (s, "bad-op")
   | ["eof", cn, cli] =>
     match cn.toNat?, parseBool cli with
     | some cn, some cli => doAct s (.eof cn cli)
